@@ -429,7 +429,8 @@ class _Algorithm:
                 ParameterWarning, stacklevel=2
             )
         weight_array = _check_optional_array(
-            self._size, weights, copy_input=copy_weights, check_finite=self._check_finite
+            self._size, weights, dtype=float, copy_input=copy_weights,
+            check_finite=self._check_finite
         )
         if self._sort_order is not None and weights is not None:
             weight_array = weight_array[self._sort_order]
@@ -492,7 +493,8 @@ class _Algorithm:
 
         """
         weight_array = _check_optional_array(
-            self._size, weights, copy_input=copy_weights, check_finite=self._check_finite
+            self._size, weights, dtype=float, copy_input=copy_weights,
+            check_finite=self._check_finite
         )
         if self._sort_order is not None and weights is not None:
             weight_array = weight_array[self._sort_order]
